@@ -555,6 +555,11 @@ def run(plan, ctx):
                 bump("fault_fired:" + what)
                 if on_include:
                     bump("fault_fired:any_kind_on_an_included_file")
+            # torn / flipped content is real on disk during the load: whoever reads the file,
+            # through whatever API, reads that content - the model decides on the faulted tree
+            # whether the file matters at all.  errno / short reads exist only at the open()
+            # seam: they count only if they fired there.
+            if what in ("tear", "flip") or fired:
                 klass = "faulted"
                 fp = posixpath.normpath(fault["path"])
                 if what == "tear":
@@ -625,7 +630,7 @@ def run(plan, ctx):
             sig = (mainpath, op)
             viol.append({"inv": inv, "step": i, "detail": "%s [cwd=%r, %s%s] files opened: %s" %
                          (detail, cwd, op if op == "loads" else "load(%s path)" % st.get("style"),
-                          ", fault %s on %s" % (fault["what"], fault["path"]) if fault and fired else "",
+                          ", fault %s on %s" % (fault["what"], fault["path"]) if fault and klass == "faulted" else "",
                           ev.get("opens"))})
         # M2: the same tree loaded again (other cwd/style) must give the same answer - implied by
         # comparing every load with the model; counted here
